@@ -39,6 +39,7 @@ CONSTANTS Params,       \* parameter names
           InitScopeSets, \* possible initial subscription sets of a connection (subsets of Scopes)
           HiddenChoices, \* possible sets of unexported parameters
           ActScopes,    \* scopes used by Activate / Deactivate in the bounded models (subset of Scopes)
+          RepKinds,     \* operation kinds explored by RepSpec (one representative per funnel call)
           MaxNow        \* time bound (state constraint of the bounded models)
 
 Ok == "ok"
@@ -162,15 +163,19 @@ Removed(sc) == CASE sc = "all"  -> {"all"}
                  [] sc = "mod"  -> {"mod"} \cup (Params \ Mod2)
                  [] sc = "mod2" -> {"mod2"} \cup Mod2
                  [] OTHER       -> {sc}
+(* (what a connection holds for a parameter it no longer listens to is of no interest: forgotten) *)
+Forget(c) == seen' = [seen EXCEPT ![c] = [p \in Params |-> IF Listens(sub'[c], p) THEN @[p] ELSE Nothing]]
 Deactivate(c, sc) ==
     /\ sub' = [sub EXCEPT ![c] = @ \ Removed(sc)]
+    /\ Forget(c)
     /\ out' = NoOut
-    /\ UNCHANGED <<cache, omit, hidden, seen>>
+    /\ UNCHANGED <<cache, omit, hidden>>
 (* identification request or disconnect: all subscriptions of c are gone *)
 Drop(c) ==
     /\ sub' = [sub EXCEPT ![c] = {}]
+    /\ Forget(c)
     /\ out' = NoOut
-    /\ UNCHANGED <<cache, omit, hidden, seen>>
+    /\ UNCHANGED <<cache, omit, hidden>>
 
 (* uniform operation records [a, p, x, y, n] (x: value / error / scope, y: reported value or second *)
 (* parameter, n: ticks or explicit stamp)                                                           *)
@@ -199,10 +204,12 @@ OpsOf(p) ==
     {[a |-> "AnnounceErr", p |-> p, x |-> e, y |-> "-", n |-> 0] : e \in Errs} \cup
     {[a |-> "AssignInvalid", p |-> p, x |-> i, y |-> "-", n |-> 0] : i \in Invs} \cup
     {[a |-> "Untouched", p |-> p, x |-> "-", y |-> "-", n |-> 0]}
-(* explicit stamps: one tick in the past, one in the future *)
+(* explicit stamps: the bounded models use one tick in the past (traces may carry any stamp) *)
 AtOps(p) == {[a |-> "AnnounceAt", p |-> p, x |-> x, y |-> "-", n |-> t] :
-                 x \in Vals \cup Errs, t \in (IF now > 1 THEN {now - 1} ELSE {}) \cup {now + 1}}
-NestOps(p) == {[a |-> "ReadNested", p |-> p, x |-> x, y |-> q, n |-> 0] : x \in Vals \cup Errs, q \in Params \ {p}}
+                 x \in Vals \cup Errs, t \in (IF now > 1 THEN {now - 1} ELSE {})}
+SameModule(p, q) == (p \in Mod2) = (q \in Mod2)
+NestOps(p) == {[a |-> "ReadNested", p |-> p, x |-> x, y |-> q, n |-> 0] :
+                   x \in Vals \cup Errs, q \in {r \in Params \ {p} : SameModule(p, r)}}
 ActOps == {[a |-> "Activate", p |-> c, x |-> sc, y |-> "-", n |-> 0] : c \in Conns, sc \in ActScopes}
 DeactOps == {[a |-> "Deactivate", p |-> c, x |-> sc, y |-> "-", n |-> 0] : c \in Conns, sc \in ActScopes \cup {"all"}} \cup
             {[a |-> "Drop", p |-> c, x |-> "-", y |-> "-", n |-> 0] : c \in Conns}
@@ -215,8 +222,7 @@ Spec == Init /\ [][Next]_vars
 
 (* Write / Assign / AnnounceErr are by definition the same funnel calls as ReadOk / ReadRaise: *)
 (* the design checks explore one representative operation per distinct funnel call            *)
-RepOps == {op \in AllOps : op.a \in {"ReadOk", "ReadRaise", "ReadInvalid", "AssignInvalid", "AnnounceAt", "ReadNested",
-                                     "Activate", "Deactivate", "Drop"}}
+RepOps == {op \in AllOps : op.a \in RepKinds}
 RepNext == \/ \E op \in RepOps : Do(op, now) /\ now' = now
            \/ \E n \in 1 .. 2 : Tick(n)
 RepSpec == Init /\ [][RepNext]_vars
